@@ -436,8 +436,83 @@ class WithSolve(Contract):
                 ('niter-at-most-maxiter', SExt.lift(niter).le(S.maxiter))]
 
 
+# ------------------------------------------------------------------------------------------------ System.solve_constraints
+
+class FiniteVec(Vec):
+    """x: adding a finite vector to a finite vector does not produce nan (IEEE: finite + finite is finite or +-inf)."""
+
+    def sym_iop(self, ctx, op, rhs):
+        if op == '+' and isinstance(rhs, Vec) and rhs.kind == 'fp':
+            if not ctx.branch(rhs.n == self.n):
+                raise PyRaise('ValueError', note='operands could not be broadcast together')
+            r = Vec.fresh(ctx, 'x+dx', 'fp', n=self.n, report=False)
+            a, b = self, rhs
+            ctx.assume(qforall(1, lambda i: z3.Implies(z3.And(0 <= i, i < a.n, a.sel(i)[0] == FIN, b.sel(i)[0] == FIN), r.sel(i)[0] != NAN)),
+                       axiom='IEEE: the sum of two finite floats is not nan')
+            return r
+        return NotImplemented
+
+
+class SolveConstraints(Contract):
+    """System.solve_constraints: the vector handed to construct() is NaN exactly at the dofs whose matrix column has
+    no entry with |value| > droptol (the undetermined ones)."""
+    prop = PROP
+    fn = 'solver:System.solve_constraints'
+    allow_raises = {'ValueError': True, 'MatrixError': True, 'SolverError': True}
+
+    def setup(self, cx):
+        n = cx.int('ndofs')
+        cx.assume(n >= 0)
+        x = FiniteVec('fp', n, Vec.fresh(cx, 'x0', 'fp', n=n)._sel, 'x')
+        cx.assume(qforall(1, lambda i: z3.Implies(z3.And(0 <= i, i < n), x.sel(i)[0] == FIN)))  # deconstruct asserts isfinite(x)
+        data = Vec.fresh(cx, 'data', 'fp')
+        colidx = Vec.fresh(cx, 'colidx', 'int', n=data.n)
+        cx.assume(qforall(1, lambda k: z3.Implies(z3.And(0 <= k, k < data.n), z3.And(0 <= colidx.sel(k), colidx.sel(k) < n))))
+        res = Vec.fresh(cx, 'res', 'fp', n=n)
+        droptol = finite_nonneg(cx, 'droptol')
+        S = State(n=n, data=data, colidx=colidx, droptol=droptol, captured=None)
+
+        def solve(ctx, s, rhs, constrain=None, **kw):
+            # contract of Matrix.solve (above): a finite vector or a MatrixError
+            if ctx.branch(ctx.bool('jac.solve.raises', report=False)):
+                raise PyRaise('MatrixError', payload=ExcInstance('MatrixError'))
+            dx = Vec.fresh(ctx, 'dx', 'fp', n=n, report=False)
+            ctx.assume(qforall(1, lambda i: z3.Implies(z3.And(0 <= i, i < n), dx.sel(i)[0] == FIN)))
+            return dx
+        jac = MatrixObj(cx, n, n)
+        jac.methods['export'] = lambda ctx, s, form: (data, colidx, SOpaque('rowptr'))
+        jac.methods['solve'] = solve
+
+        def construct(ctx, s, arguments, xx):
+            S.captured = xx
+            return {}
+        system = SObj('System', attrs=dict(is_linear=True, is_symmetric=SBool(cx.bool('is_symmetric')), _trial_info=SOpaque('str'), trials=(),
+                                           __trial_slices=(), _System__trial_slices=()),
+                      methods={'deconstruct': lambda ctx, s, a, c: (a, x), 'assemble': lambda ctx, s, a, xx: (jac, res, SFp.fresh(ctx, 'val', report=False)),
+                               'construct': construct})
+        S.args = (system,)
+        S.kwargs = dict(droptol=droptol, arguments={}, constrain={}, linargs={})
+        S.globals = {'numpy': NumpyLog(), 'log': Quiet(), '_copy_with_defaults': lambda ctx, d, **kw: dict(d, **kw)}
+        return S
+
+    def ensures(self, cx, S, result):
+        xx = S.captured
+        if not isinstance(xx, Vec):
+            raise Unsupported('construct() did not receive the solution vector')
+        data, colidx, tol, n = S.data, S.colidx, S.droptol, S.n
+        above = lambda k: tol.lt(SFp(*data.sel(k)).unop(cx, 'abs'))
+        from pyvc.nparr import qexists
+        influential = lambda j: qexists(1, lambda k: z3.And(0 <= k, k < data.n, colidx.sel(k) == j, above(k)))
+        return [('nan-only-where-no-influence', qforall(1, lambda j: z3.Implies(z3.And(0 <= j, j < n, xx.sel(j)[0] == NAN), z3.Not(influential(j))))),
+                ('nan-wherever-no-influence', qforall(1, lambda j: z3.Implies(z3.And(0 <= j, j < n, z3.Not(influential(j))), xx.sel(j)[0] == NAN))),
+                ('length', xx.n == n)]
+
+    def replay(self, ob):
+        return _script('solve_constraints()')
+
+
 def contracts():
-    cs = [Solver()]
+    cs = [Solver(), SolveConstraints()]
     for rhs in (True, False):
         for lhs0 in (True, False):
             for ck in ('none', 'bool', 'float'):
